@@ -20,7 +20,7 @@ for a, b in zip(idx, idx[1:] + [len(t)]):
             continue
         if chunk[i] == '"':
             i += 1
-            while chunk[i] != '"':
+            while i < len(chunk) and chunk[i] != chr(34):
                 i += 2 if chunk[i] == "\\" else 1
         i += 1
     v = C.parse_tla_value(chunk[:end])
